@@ -1080,6 +1080,150 @@ pub unsafe extern "C" fn kill(pid: pid_t, sig: c_int) -> c_int {
     }
 }
 
+#[no_mangle]
+pub unsafe extern "C" fn killpg(pgrp: pid_t, sig: c_int) -> c_int {
+    match ctx() {
+        Ctx::Real => real!(killpg: fn(pid_t, c_int) -> c_int)(pgrp, sig),
+        // a process group of the simulation must never reach the real kernel
+        _ => kill(-pgrp.abs().max(1), sig),
+    }
+}
+
+/// stat family and access(): answered from the simulated file system for simulated contexts.
+unsafe fn stat_impl(path: *const c_char, want_mode: Option<c_int>) -> Result<u32, i32> {
+    let who = match ctx() {
+        Ctx::Par(t) => {
+            par_enter(t, Call::Other);
+            PARENT_PID
+        }
+        Ctx::Child => child_ctx().pid,
+        Ctx::Real => unreachable!(),
+    };
+    if path.is_null() {
+        return Err(libc::EFAULT);
+    }
+    let p = cstr_bytes(path);
+    let s = sim();
+    s.k.probe("stat_or_access_by_library");
+    let mode = s.k.k_stat(who, &p)?;
+    if let Some(m) = want_mode {
+        if m & libc::X_OK != 0 && mode & 0o111 == 0 {
+            return Err(libc::EACCES);
+        }
+    }
+    Ok(mode)
+}
+
+unsafe fn fill_stat(buf: *mut libc::stat, mode: u32) {
+    std::ptr::write_bytes(buf as *mut u8, 0, std::mem::size_of::<libc::stat>());
+    (*buf).st_mode = mode;
+    (*buf).st_nlink = 1;
+}
+
+macro_rules! stat_like {
+    ($name:ident) => {
+        #[no_mangle]
+        pub unsafe extern "C" fn $name(path: *const c_char, buf: *mut libc::stat) -> c_int {
+            match ctx() {
+                Ctx::Real => real!($name: fn(*const c_char, *mut libc::stat) -> c_int)(path, buf),
+                _ => {
+                    let _g = Guard::new();
+                    match stat_impl(path, None) {
+                        Ok(m) => {
+                            fill_stat(buf, m);
+                            0
+                        }
+                        Err(e) => {
+                            set_errno(e);
+                            -1
+                        }
+                    }
+                }
+            }
+        }
+    };
+}
+stat_like!(stat);
+stat_like!(stat64);
+stat_like!(lstat);
+stat_like!(lstat64);
+
+#[no_mangle]
+pub unsafe extern "C" fn fstatat(dirfd: c_int, path: *const c_char, buf: *mut libc::stat, flags: c_int) -> c_int {
+    match ctx() {
+        Ctx::Real => real!(fstatat: fn(c_int, *const c_char, *mut libc::stat, c_int) -> c_int)(dirfd, path, buf, flags),
+        _ => {
+            let _g = Guard::new();
+            match stat_impl(path, None) {
+                Ok(m) => {
+                    fill_stat(buf, m);
+                    0
+                }
+                Err(e) => {
+                    set_errno(e);
+                    -1
+                }
+            }
+        }
+    }
+}
+
+#[no_mangle]
+pub unsafe extern "C" fn fstatat64(dirfd: c_int, path: *const c_char, buf: *mut libc::stat, flags: c_int) -> c_int {
+    match ctx() {
+        Ctx::Real => real!(fstatat64: fn(c_int, *const c_char, *mut libc::stat, c_int) -> c_int)(dirfd, path, buf, flags),
+        _ => fstatat(dirfd, path, buf, flags),
+    }
+}
+
+#[no_mangle]
+pub unsafe extern "C" fn statx(dirfd: c_int, path: *const c_char, flags: c_int, mask: libc::c_uint, buf: *mut libc::statx) -> c_int {
+    match ctx() {
+        Ctx::Real => real!(statx: fn(c_int, *const c_char, c_int, libc::c_uint, *mut libc::statx) -> c_int)(dirfd, path, flags, mask, buf),
+        _ => {
+            let _g = Guard::new();
+            match stat_impl(path, None) {
+                Ok(m) => {
+                    std::ptr::write_bytes(buf as *mut u8, 0, std::mem::size_of::<libc::statx>());
+                    (*buf).stx_mask = libc::STATX_BASIC_STATS;
+                    (*buf).stx_mode = m as u16;
+                    (*buf).stx_nlink = 1;
+                    0
+                }
+                Err(e) => {
+                    set_errno(e);
+                    -1
+                }
+            }
+        }
+    }
+}
+
+#[no_mangle]
+pub unsafe extern "C" fn access(path: *const c_char, mode: c_int) -> c_int {
+    match ctx() {
+        Ctx::Real => real!(access: fn(*const c_char, c_int) -> c_int)(path, mode),
+        _ => {
+            let _g = Guard::new();
+            match stat_impl(path, Some(mode)) {
+                Ok(_) => 0,
+                Err(e) => {
+                    set_errno(e);
+                    -1
+                }
+            }
+        }
+    }
+}
+
+#[no_mangle]
+pub unsafe extern "C" fn faccessat(dirfd: c_int, path: *const c_char, mode: c_int, flags: c_int) -> c_int {
+    match ctx() {
+        Ctx::Real => real!(faccessat: fn(c_int, *const c_char, c_int, c_int) -> c_int)(dirfd, path, mode, flags),
+        _ => access(path, mode),
+    }
+}
+
 unsafe fn exec_impl(path: *const c_char, argv: *const *const c_char, envp: *const *const c_char, explicit: bool, search: bool) -> c_int {
     match ctx() {
         Ctx::Real => {
